@@ -528,7 +528,9 @@ func (h *history) step(i int) {
 			note("control-header-arg")
 			return
 		case 1:
-			real.Try(func() { h.add(&pooled{kind: "control", ctl: ast.NewHSMSMessageSelectReq(uint16(r.Intn(65536)), sys)}, op) })
+			real.Try(func() {
+				h.add(&pooled{kind: "control", ctl: ast.NewHSMSMessageSelectReq(uint16(r.Intn(65536)), sys)}, op)
+			})
 		case 2:
 			real.Try(func() { h.add(&pooled{kind: "control", ctl: ast.NewHSMSMessageLinktestReq(sys)}, op) })
 		case 3:
